@@ -724,3 +724,40 @@ def partial_updates(eng, fn, fa, k):
             for r in roots:
                 if r[0] == "arg" and r[1] in params and r[2] == 0: out.append((i, r[1])); break
     return out
+
+
+def realloc_into_source(eng, fn):
+    """R8: `p->f = realloc(p->f, n)` - the result of realloc is stored into the very location its argument was loaded from on a path
+    where it may be NULL: on failure the old block (still allocated) is no longer referenced and the object holds NULL.
+    Returns [(realloc call, store inst or None, guarded)] for every realloc whose argument is loaded from a constant-offset location."""
+    fa = eng.fa.get(fn.name) or FnAlloc(fn, eng)
+    out = []
+    fn.dom()
+    for c in fn.calls():
+        if c.get("callee") != "realloc": continue
+        L = loaded_loc(fa, c.ops[0])
+        if L is None: continue
+        # values that are the realloc result (through casts)
+        al = {c.id}; grew = True
+        while grew:
+            grew = False
+            for i in fn.insts():
+                if i.op in ("bitcast",) and i.ops[0]["k"] == "inst" and i.ops[0]["v"] in al and i.id not in al: al.add(i.id); grew = True
+        # blocks where the result is known non-NULL: dominated by the non-null successor of a test of it
+        nonnull = []
+        for b in fn.blocks:
+            t = b.term
+            if t.op == "br" and len(t.ops) == 3 and t.ops[0]["k"] == "inst":
+                ci = fn.imap[t.ops[0]["v"]]
+                if ci.op == "icmp" and ci["pred"] in ("eq", "ne") and ci.ops[0]["k"] == "inst" and ci.ops[0]["v"] in al and ci.ops[1]["k"] == "null":
+                    nn = t.ops[2]["v"] if ci["pred"] == "ne" else t.ops[1]["v"]
+                    if [pb.id for pb in fn.bmap[nn].preds] == [b.id]: nonnull.append(nn)
+        stores = []
+        for i in fn.insts():
+            if i.op == "store" and i.ops[0]["k"] == "inst" and i.ops[0]["v"] in al:
+                root, off = fa.fi.ptr(i.ops[1])
+                if off.is_const() and (root, off.c) == L: stores.append(i)
+        if not stores: out.append((c, None, True)); continue
+        for st in stores:
+            out.append((c, st, any(fn.dominates(nn, st.block.id) for nn in nonnull)))
+    return out
